@@ -4,6 +4,7 @@ import (
 	"fmt"
 	"go/token"
 	"go/types"
+	"time"
 
 	"gosym/sym"
 
@@ -38,6 +39,10 @@ func (in *Interp) runBlock(fr *frame, b *ssa.BasicBlock, prev *ssa.BasicBlock) (
 	in.res.Funcs[fr.fn.String()] += len(b.Instrs)
 	in.nInstr += len(b.Instrs)
 	in.res.Instrs += int64(len(b.Instrs))
+	in.blockCount++
+	if in.blockCount&0x3fff == 0 && !in.opts.Deadline.IsZero() && time.Now().After(in.opts.Deadline) {
+		panic(boundExceeded{"deadline reached inside a path"})
+	}
 	if in.nInstr > in.opts.MaxInstr && !in.initMode {
 		panic(boundExceeded{"instruction budget per path"})
 	}
@@ -100,7 +105,7 @@ func (in *Interp) panicMsg(v Value) string {
 			return "<symbolic string>"
 		}
 		// error values: try the common errorString shape (*struct{ s string })
-		if p, ok := i.v.(Ptr); ok && p.c != nil && len(p.c.sub) >= 1 {
+		if p, ok := i.v.(Ptr); ok && p.c != nil && p.c.length() >= 1 {
 			if s, ok := p.c.sub[0].v.(*Str); ok {
 				if cs, ok := s.Concrete(); ok {
 					return i.t.String() + ": " + cs
@@ -116,13 +121,7 @@ func (in *Interp) exec(fr *frame, ins ssa.Instruction) {
 	switch x := ins.(type) {
 	case *ssa.DebugRef:
 	case *ssa.Alloc:
-		z := in.zero(x.Type().(*types.Pointer).Elem())
-		if x.Heap {
-			fr.locals[x] = Ptr{in.newCell(z)}
-		} else {
-			// stack slot: fresh per execution (loops re-zero it, as in the SSA interpreter)
-			fr.locals[x] = Ptr{in.newCell(z)}
-		}
+		fr.locals[x] = Ptr{in.allocType(x.Type().(*types.Pointer).Elem())}
 	case *ssa.UnOp:
 		fr.locals[x] = in.unop(fr, x)
 	case *ssa.BinOp:
@@ -221,6 +220,9 @@ func (in *Interp) exec(fr *frame, ins ssa.Instruction) {
 		if s.arr == nil {
 			fr.locals[x] = Ptr{}
 		} else {
+			for i := 0; i < n; i++ {
+				s.arr.at(s.off + i)
+			}
 			fr.locals[x] = Ptr{&Cell{sub: s.arr.sub[s.off : s.off+n], epoch: s.arr.epoch}}
 		}
 	case *ssa.Store:
@@ -441,7 +443,7 @@ func (in *Interp) convert(v Value, from, to types.Type) Value {
 			rs := []rune(cs)
 			arr := in.newArrayCell(len(rs), c.BVConst(0, 32))
 			for i, r := range rs {
-				arr.sub[i].v = c.BVConst(uint64(r), 32)
+				arr.at(i).v = c.BVConst(uint64(r), 32)
 			}
 			return Slice{arr: arr, len: len(rs), cap: len(rs)}
 		}
@@ -466,7 +468,7 @@ func (in *Interp) convert(v Value, from, to types.Type) Value {
 				// string([]rune)
 				var rs []rune
 				for i := 0; i < x.len; i++ {
-					t := x.arr.sub[x.off+i].v.(*sym.Term)
+					t := x.arr.at(x.off+i).v.(*sym.Term)
 					if !t.IsConst() {
 						panic(unmodelled{"string of symbolic runes"})
 					}
@@ -623,34 +625,32 @@ func (in *Interp) selectElem(n int, idx *sym.Term, elem func(int) Value) Value {
 func (in *Interp) indexAddr(fr *frame, x *ssa.IndexAddr) Value {
 	base := in.get(fr, x.X)
 	idx := in.get(fr, x.Index).(*sym.Term)
-	var cells []*Cell
+	var arr *Cell
+	off, n := 0, 0
 	switch b := base.(type) {
 	case Slice:
-		if b.arr != nil {
-			cells = b.arr.sub[b.off : b.off+b.len]
-		}
+		arr, off, n = b.arr, b.off, b.len
 	case Ptr:
 		if b.c == nil {
 			in.throw("runtime error: invalid memory address or nil pointer dereference")
 		}
-		cells = b.c.sub
+		arr, n = b.c, b.c.length()
 	default:
 		panic(unmodelled{fmt.Sprintf("indexaddr on %T", base)})
 	}
-	n := len(cells)
 	if idx.IsConst() {
 		i := idx.SignedVal()
 		if i < 0 || i >= int64(n) {
 			in.throw(fmt.Sprintf("runtime error: index out of range [%d] with length %d", i, n))
 		}
-		return Ptr{cells[i]}
+		return Ptr{arr.at(off + int(i))}
 	}
 	inb := in.ctx.ULT(idx, in.ctx.BVConst(uint64(n), idx.S.W))
 	if !in.branch(inb) {
 		in.throw(fmt.Sprintf("runtime error: index out of range [symbolic] with length %d", n))
 	}
 	i := in.concretize(idx, "index address")
-	return Ptr{cells[i]}
+	return Ptr{arr.at(off + int(i))}
 }
 
 func (in *Interp) lookup(fr *frame, x *ssa.Lookup) Value {
@@ -818,7 +818,7 @@ func (in *Interp) sliceOp(fr *frame, x *ssa.Slice) Value {
 		if b.c == nil {
 			in.throw("runtime error: invalid memory address or nil pointer dereference")
 		}
-		ln, cp, arr, off = len(b.c.sub), len(b.c.sub), b.c, 0
+		ln, cp, arr, off = b.c.length(), b.c.length(), b.c, 0
 	default:
 		panic(unmodelled{fmt.Sprintf("slice of %T", base)})
 	}
